@@ -11,6 +11,9 @@ CHECKS = {
  'C01': dict(cat='exploration', engine='E2', tech='bounded-exhaustive enumeration (all ordered pairs/triples of representations x value lattice) vs SI reference model',
    text='Every ordered pair and triple of the 10 pressure, 27 loading (x19 material contexts) and 19 material representations is executed on the real converters for a lattice of values and shapes and compared with an independent SI/PropsSI reference; the refusal alphabet is enumerated completely. The configuration space is finite and covered completely; numeric values only on the lattice.',
    note='CoolProp trusted as equation of state; SI factors compared at table precision (1e-3); values on a fixed lattice (8 phases by VERIF_SEED).', ref='§4 C01'),
+ 'C02': dict(cat='model_checking', engine='E1', tech='explicit-state BFS over the real PointIsotherm label machine (all reachable representation states x full conversion alphabet) with reference model on every transition',
+   text='The label machine of a real PointIsotherm is explored to fixpoint: every reachable representation state (quick: 540-state unit-class quotient; thorough: all 10x27x19x2 = 10260) x every convert*/convert call with omitted/current/valid/unknown arguments, executed on rebuilt real objects with filled interpolator caches. After every transition: labels accepted by the constructor, data equal the ORIGINAL data converted by the independent reference model, target reached, refusal changed nothing (combined convert: exactly the completed steps), frame untouched, no stale interpolation. Variants without thermodynamic backend / with partial properties / super-critical cover impossible targets.',
+   note='One data set (pointwise conversions); reference model mc/ref_units.py; refusal = any exception; CoolProp trusted.', ref='§4 C02'),
 }
 
 def main():
